@@ -94,6 +94,33 @@ var c18Cat = func() []c18CatEntry {
 		{"additionalGids [2^32-1]", func() specs.ContainerEdits { return specs.ContainerEdits{AdditionalGIDs: []uint32{math.MaxUint32}} }},
 	}
 	var out []c18CatEntry
+	// annotation values: empty, blank, long; keys at their limits (at Spec level and in a device)
+	for _, a := range []struct {
+		name string
+		m    map[string]string
+	}{
+		{"annotation with an empty value", map[string]string{"k": ""}},
+		{"annotations with empty and blank values", map[string]string{"example.com/key": "", "other": " ", "third": "\t"}},
+		{"annotation key of 63+1+63 bytes with an empty value", map[string]string{strings.Repeat("p", 63) + "/" + strings.Repeat("n", 63): ""}},
+	} {
+		a := a
+		cp := func() map[string]string {
+			m := map[string]string{}
+			for k, v := range a.m {
+				m[k] = v
+			}
+			return m
+		}
+		out = append(out,
+			c18CatEntry{a.name + " / Spec level", func() *specs.Spec {
+				return &specs.Spec{Version: "1.0.0", Kind: "vendor.com/gpu", Annotations: cp(), Devices: []specs.Device{{Name: "dev0", ContainerEdits: specs.ContainerEdits{Env: []string{"D=0"}}}}}
+			}},
+			c18CatEntry{a.name + " / last of two devices", func() *specs.Spec {
+				return &specs.Spec{Version: "1.0.0", Kind: "vendor.com/gpu", Devices: []specs.Device{
+					{Name: "dev0", ContainerEdits: specs.ContainerEdits{Env: []string{"D=0"}}},
+					{Name: "dev1", Annotations: cp(), ContainerEdits: specs.ContainerEdits{Env: []string{"D=1"}}}}}
+			}})
+	}
 	for _, m := range mins {
 		m := m
 		out = append(out,
